@@ -13,7 +13,9 @@ LEAVES_2 = [V('a'), I(1)]
 
 LEAVES_ALL = [
     I(0), I(12), ('real', '1.5'), ('real', '.5'), ('real', '2.'), ('real', '1e3'), ('real', '1e-3'), ('real', '2.E+4'),
+    ('real', '1.5f'), ('real', '.5L'), ('real', '2.F'), ('real', '1e3l'),            # suffixed forms the lexer takes as one token
     ('str', ''), ('str', 'a b'), ('str', "it's /* no */ -- // x"), ('bool', 'true'), ('bool', 'false'),
+    ('str', 'C:\\users\\x1\\'), ('str', '\\N{no} \\U99999999 %s {0} \\'),      # backslashes are ordinary characters in OAL strings
     V('x'), V('select_'), V('any'),        # 'any' is a keyword usable as a variable name
     ('field', V('a'), 'b'), ('field', ('field', V('a'), 'b'), 'c'), ('field', ('self',), 'x'), ('field', ('selected',), 'x'),
     ('param', 'p'), ('field', ('param', 'p'), 'f'), ('rcvd', 'q'), ('self',), ('selected',),
